@@ -6,6 +6,7 @@ import (
 	"encoding/binary"
 	"fmt"
 	"math/rand"
+	"runtime"
 	"runtime/debug"
 	"syscall"
 	"unsafe"
@@ -32,6 +33,16 @@ func buildName() string {
 
 func driveLookup(c *ctx) {
 	rng := rand.New(rand.NewSource(c.seed))
+	debug.SetPanicOnFault(true) // a trap inside a lookup (unreadable page, misaligned vector load) becomes a logged fault
+	trap := func(f func()) (faulted bool) {
+		defer func() {
+			if r := recover(); r != nil {
+				faulted = true
+			}
+		}()
+		f()
+		return false
+	}
 	ps, as := int(secp256k1.VerifPointSize()), int(secp256k1.VerifAffineSize())
 	c.E("lk.Layout", "build", buildName(), "point", ps, "affine", as, "refcopy", secp256k1.VerifHaveRefCopy)
 
@@ -78,11 +89,11 @@ func driveLookup(c *ctx) {
 			pre[96] = byte(idx & 1) // the validity flag byte: a legal bool
 			secp256k1.VerifSetPointImage(out, pre)
 			secp256k1.VerifSetPointImage(ref, pre)
-			secp256k1.VerifLookupProjective(tbl, out, idx)
+			f := trap(func() { secp256k1.VerifLookupProjective(tbl, out, idx) })
 			secp256k1.VerifRefLookupProjective(tbl, ref, idx)
 			oi, ri := secp256k1.VerifPointImage(out), secp256k1.VerifPointImage(ref)
 			c.E("lk.Proj", "build", buildName(), "pat", p.name, "idx", int(idx), "tbl", entries, "pre_tail", hx(pre[96:]),
-				"out", hx(oi[:96]), "out_tail", hx(oi[96:]), "ref", hx(ri[:96]))
+				"out", hx(oi[:96]), "out_tail", hx(oi[96:]), "ref", hx(ri[:96]), "faulted", f)
 		}
 	}
 	doAff := func(p pattern) {
@@ -119,10 +130,10 @@ func driveLookup(c *ctx) {
 				secp256k1.VerifSetAffineImage(out, pre)
 				secp256k1.VerifSetAffineImage(ref, pre)
 			}
-			secp256k1.VerifLookupAffine(tbl, out, idx)
+			f := trap(func() { secp256k1.VerifLookupAffine(tbl, out, idx) })
 			secp256k1.VerifRefLookupAffine(tbl, ref, idx)
 			c.E("lk.Aff", "build", buildName(), "pat", p.name, "idx", int(idx), "tbl", entries,
-				"out", hx(secp256k1.VerifAffineImage(out)), "ref", hx(secp256k1.VerifAffineImage(ref)))
+				"out", hx(secp256k1.VerifAffineImage(out)), "ref", hx(secp256k1.VerifAffineImage(ref)), "faulted", f)
 		}
 	}
 	for _, p := range pats {
@@ -131,6 +142,71 @@ func driveLookup(c *ctx) {
 		}
 		doProj(p)
 		doAff(p)
+	}
+
+	// ---- alignment: the table types are only 8-byte aligned as far as Go is concerned (a table inside a larger struct, on the stack,
+	// or carved out of a []uint64), so every routine must work for a table at 0 and at 8 (mod 16).  A misaligned-access trap is turned
+	// into a logged fault, not a dead driver.
+	{
+		oldPF := debug.SetPanicOnFault(true)
+		arena := make([]uint64, (15*ps+15*as)/8+8)
+		a0 := unsafe.Pointer(&arena[0])
+		if uintptr(a0)%16 != 0 {
+			a0 = unsafe.Add(a0, 8)
+		}
+		fl := func(f func()) (faulted bool) {
+			defer func() {
+				if r := recover(); r != nil {
+					faulted = true
+				}
+			}()
+			f()
+			return false
+		}
+		for _, off := range []int{0, 8} {
+			pat := "align" + itoa(off)
+			// projective
+			src := new(secp256k1.VerifProjTable)
+			img := secp256k1.VerifProjTableImage(src)
+			fillRandom(img)
+			addr := unsafe.Add(a0, off)
+			copy(unsafe.Slice((*byte)(addr), len(img)), img)
+			entries := make([]string, 15)
+			for i := 0; i < 15; i++ {
+				entries[i] = hx(img[i*ps : i*ps+96])
+			}
+			for idx := uint64(0); idx < 16; idx++ {
+				out, ref := new(secp256k1.Point), new(secp256k1.Point)
+				pre := make([]byte, ps)
+				rng.Read(pre)
+				pre[96] = byte(idx & 1)
+				secp256k1.VerifSetPointImage(out, pre)
+				secp256k1.VerifSetPointImage(ref, pre)
+				f := fl(func() { secp256k1.VerifLookupProjectiveAt(addr, out, idx) })
+				secp256k1.VerifRefLookupProjective(src, ref, idx)
+				oi, ri := secp256k1.VerifPointImage(out), secp256k1.VerifPointImage(ref)
+				c.E("lk.Proj", "build", buildName(), "pat", pat, "idx", int(idx), "tbl", entries, "pre_tail", hx(pre[96:]),
+					"out", hx(oi[:96]), "out_tail", hx(oi[96:]), "ref", hx(ri[:96]), "faulted", f)
+			}
+			// affine
+			srcA := new(secp256k1.VerifAffineTable)
+			imgA := secp256k1.VerifAffineTableImage(srcA)
+			fillRandom(imgA)
+			copy(unsafe.Slice((*byte)(addr), len(imgA)), imgA)
+			entriesA := make([]string, 15)
+			for i := 0; i < 15; i++ {
+				entriesA[i] = hx(imgA[i*as : (i+1)*as])
+			}
+			for idx := uint64(0); idx < 16; idx++ {
+				out, ref := new(secp256k1.VerifAffinePoint), new(secp256k1.VerifAffinePoint)
+				f := fl(func() { secp256k1.VerifLookupAffineAt(addr, out, idx) })
+				secp256k1.VerifRefLookupAffine(srcA, ref, idx)
+				c.E("lk.Aff", "build", buildName(), "pat", pat, "idx", int(idx), "tbl", entriesA,
+					"out", hx(secp256k1.VerifAffineImage(out)), "ref", hx(secp256k1.VerifAffineImage(ref)), "faulted", f)
+			}
+		}
+		runtime.KeepAlive(arena)
+		debug.SetPanicOnFault(oldPF)
 	}
 
 	// ---- which entries does a lookup touch?  Entries k.. of the table live in an unreadable page.
